@@ -91,6 +91,22 @@ def direct(prop, ops):
                     if s in seen:
                         out.append(Finding(prop, i, sig(i, "event-destroyed-twice"), f"event s{s} destroyed at op {seen[s]} and again at op {i}"))
                     seen[s] = i
+    if prop in ("C11", "C13"):
+        # when a top-level call returns (or unwinds) no event value is alive inside the world
+        for i, (op, obs) in enumerate(ops):
+            for l in lines_of(obs, "live "):
+                m = re.search(r"E=(-?\d+)", l)
+                if m and int(m.group(1)) != 0:
+                    out.append(Finding(prop, i, sig(i, "event-alive-after-return"), f"{m.group(1)} event value(s) alive after `{op}` returned ({l})"))
+    if prop in ("C12", "C13"):
+        # after the world is dropped every component value with a destructor has been destroyed; never more drops than values
+        for i, (op, obs) in enumerate(ops):
+            for l in lines_of(obs, "live "):
+                vals = {k: int(v) for k, v in re.findall(r"(K\d)=(-?\d+)", l)}
+                if any(v < 0 for v in vals.values()):
+                    out.append(Finding(prop, i, sig(i, "component-destroyed-twice"), f"more destructor calls than values: {l}"))
+                if op == "drop" and any(v != 0 for v in vals.values()):
+                    out.append(Finding(prop, i, sig(i, "component-leaked"), f"component values alive after the world was dropped: {l}"))
     if prop in ("C12", "C13"):
         seen = {}
         for i, (op, obs) in enumerate(ops):
